@@ -1091,3 +1091,27 @@ def _m84():
         i for i in forward_opts.link_options
         if i not in self._internal_options
     )""")
+
+
+@mutant('requirement_split_hash_order')
+def _m85():
+    # Requirement.split as it was before the fix: iterate the specifier set directly
+    from bfg9000.builtins import pkg_config as bpc
+    from vpx import advset
+
+    def edit(src):
+        assert 'for i in sorted(specs, key=str)]' in src
+        return src.replace('for i in sorted(specs, key=str)]', 'for i in specs]')
+    advset.rewrite(bpc.Requirement, 'split', edit)
+
+
+@mutant('pc_forwarded_libs_through_set')
+def _m86():
+    # PkgConfigInfo.finalize collects the forwarded private libraries through a set
+    from bfg9000.builtins import pkg_config as bpc
+    from vpx import advset
+
+    def edit(src):
+        assert '(i for i in fwd.libs if i not in libs)' in src
+        return src.replace('(i for i in fwd.libs if i not in libs)', 'set(fwd.libs) - set(libs)')
+    advset.rewrite(bpc.PkgConfigInfo, 'finalize', edit)
